@@ -9,6 +9,12 @@ CHECKS = {
          'Every description within the bound is built with the real constructors; nothing is sampled. Outside the bound: >4 wires, curved objects except fixed extras.',
          'reference clustering written from the statement; /venv python + numpy', '3/C12'),
 }
+CHECKS['C06'] = (T % ('all n!*2^n orderings x orientations, all collinear splits (8 forms per split point) and tag permutations of every in-domain <=3 (thorough 4)-wire structure on the lattice, free space and ideal ground', 'the class representative (differential oracle: feed impedance, conductor currents per half-segment, near E/H, far E)'),
+         'All descriptions of every structure within the bound are solved with the real solver; tolerance is the stated 5e-4 (cond-scaled). Outside: >4 wires, curved objects.',
+         'geometric pulse identity (point + far ends) computed by the harness; conductor currents instead of pulse currents at k>=3 junctions', '3/C06')
+CHECKS['C03'] = (T % ('every in-domain <=3 (thorough 4)-wire structure on the ground lattice x every pulse position as feed x 2-source sets', 'the free-space model of antenna + mirror image constructed by the harness (currents, impedances, 3.0103 dB gain offset)'),
+         'Every feed position of every structure within the bound is solved twice (ground / free-space pair) with the real solver.',
+         'mirror construction follows the statement (image wires reversed, ground-end feed 2V on the junction pulse)', '3/C03')
 NA = {}
 def main():
     src = subprocess.run(['git', '-C', '/repo', 'log', '--format=%H %s'], capture_output=True, text=True).stdout
